@@ -216,6 +216,12 @@ def rule_flush(ck):
                 g = explicit_guards_of(apps[0], lp)
                 inner = [u(t2) for t2, pol in g if t2 is not t and any(x is apps[0] for b_ in body for x in ast.walk(b_)) and
                          any(t2 is x for b_ in body for x in ast.walk(b_))]
+                if len(inner) == 1 and re.fullmatch(r'not \w+', inner[0]):
+                    # a named condition (`is_blank = all([...])`; `if not is_blank:`): read through its definition
+                    nm_ = inner[0][4:]
+                    defs_ = [a_ for a_ in find_assignments(f, nm_) if isinstance(a_, ast.Assign)]
+                    if len(defs_) == 1:
+                        inner = ['not ' + u(defs_[0].value)]
                 good = len(inner) == 1 and 'temp_event' in inner[0] and "(None, '')" in inner[0] and inner[0].startswith('not all(')
                 if not good and len(inner) == 1 and inner[0].startswith('not all(') and "(None, '')" in inner[0]:
                     # the comprehension over the event tuple written out: one emptiness test per component of temp_event
@@ -404,7 +410,14 @@ def rule_columns(ck):
         ok = len(g_) == 1 and g_[0][1] and u(g_[0][0]).replace(' ', '') in ("all([valin(None,'')forvalintemp_event[1:]])", "all((valin(None,'')forvalintemp_event[1:]))") \
             and not guards_of(falses[0], lp) and falses[0].lineno < trues[0].lineno
     elif len(asg) == 1:
-        ok = u(asg[0].value).replace(' ', '') in ("all([valin(None,'')forvalintemp_event[1:]])", "all((valin(None,'')forvalintemp_event[1:]))")
+        want = ("all([valin(None,'')forvalintemp_event[1:]])", "all((valin(None,'')forvalintemp_event[1:]))")
+        ok = u(asg[0].value).replace(' ', '') in want
+        if not ok:
+            # the fields named first (`values = temp_event[1:]`): read through the definition
+            try:
+                ok = u(Expander(P, f, keep={'temp_event'}).expand(asg[0].value)).replace(' ', '').replace('builtins.', '') in want
+            except Inconclusive:
+                ok = False
     (o.ok() if ok else o.fail('a row counts as a placeholder under another condition than "every field after the event id is empty" (%s): a '
                              'legitimate event (e.g. origin time 0 = 1970-01-01T00:00:00) would be dropped when it opens a catalog' %
                              '; '.join(u(a)[:60] for a in asg)))
